@@ -70,8 +70,16 @@ void Lexeme::checkVariousPrefixesAndSuffixes()
             ++quote;
         kEnd = quote;
     }
+    // In a hexadecimal constant `f' and `F' are digits, up to the binary
+    // exponent of a floating one (after which a suffix may come).
+    bool inHexDigits = F_.hex_;
     for (const char* cur = begin(); cur != kEnd; ++cur) {
         switch (*cur) {
+            case 'p':
+            case 'P':
+                inHexDigits = false;
+                break;
+
             case 'l':
                 if (cur + 1 != kEnd && *(cur + 1 ) == 'l') {
                     F_.llOrLL_ = 1;
@@ -105,7 +113,8 @@ void Lexeme::checkVariousPrefixesAndSuffixes()
 
             case 'f':
             case 'F':
-                F_.fOrF_ = 1;
+                if (!inHexDigits)
+                    F_.fOrF_ = 1;
                 break;
         }
     }
